@@ -386,6 +386,7 @@ func checkC05(c *Ctx) {
 	programs, cases, typeErr, genFail := emitTV(r, res, rules, nil)
 	checkGenMapRanges(c)
 	runTagVariants(c, res)
+	runTypeReuse(c)
 	withTC(c, "TV-driver", nil, func(c2 *Ctx) { runTVDriver(c2, "TV-driver") })
 	r.Explanation = "Translation validation of parquetgen's output, program by program over the bounded struct grammar (" + desc + "): each struct is fed to the working tree's parquetgen; the generated file must parse and type-check against today's runtime (TV-compile), be reproduced byte for byte by a second run (TV-determ), list the struct's columns one to one in Fields() (TV-fields); every column's shredder is abstractly interpreted into a decision tree over nil/empty tests and compared with the canonical Dremel shredder computed from the struct's go/types description (TV-shred); every column's assembler is checked case by case (def, rep) against the required effect — no clobber of nodes materialised earlier, no dangling access, exact creation, right indices, coverage and value counting (TV-asm). Each obligation covers ALL record values of its shape; the quantifier over shapes is discharged by enumeration."
 	r.Extra["programs"] = programs
@@ -508,6 +509,10 @@ func checkC03(c *Ctx) {
 		// "a reader that knows only the Parquet specification" derives from the schema
 		laOrder(c2, "LA-order")
 		laMaxLevels(c2, "LA-maxlevels")
+		// ... and what is stored is that striping only if the level encoder writes a stream a specification decoder
+		// reads back (run headers, run lengths, thresholds: the structural conditions of C07)
+		laRunKind(c2)
+		laLEB(c2)
 		// what the shredder returned is what the column keeps (values, definition and repetition levels)
 		runFT(c2, "FT", map[string]bool{"delta": true, "count": true})
 	})
